@@ -14,8 +14,27 @@ the outcome `Res.panic .fuel`, which the theorems exclude for values within the 
 Values (`Val`) are IDL-level: a struct value lists the fields that are SET (for the emitted Go
 types: non-nil pointer / non-nil optional container; required and default fields are always set
 in a well-formed value). Typedefs are resolved through `Defs` exactly where the generator calls
-`UnderlyingType`. IDL default values (`= 5`) are outside this model (the generated-code harness
-does not generate them) — stated in the check's assumptions.
+`UnderlyingType`.
+
+IDL default values (`2: optional i32 b = 5`), `Field.dflt`, as the generator treats them
+(isPointerField / generateIsSetField / generateConstructor):
+* an OPTIONAL (or union) field of base / enum / string / binary type with a default `d` is a NON-pointer
+  Go field; `IsSet<F>()` is `p.F != d`, and `writeFieldN` writes the field iff `IsSet<F>()`. So such a
+  field is SET iff its value differs from `d` (`isSetVal`), a struct value lists it iff it differs from
+  `d`, and the reader — which starts from the constructor `New<T>()`, where the field holds `d` — ends
+  in a state that is normalised the same way (`normFields`): a field that arrived with the value `d`
+  is unset.
+* a required / default-requiredness field with a default is always written; when a stream omits it the
+  reader leaves the constructor's default (`normFields` lists it with `d`).
+* an OPTIONAL field of container type with a default is a pointer to the container, `IsSet` is non-nil
+  and the constructor does NOT apply the default: on the wire it behaves as an optional field without
+  default (`cmpDflt` = none for a non-scalar default).
+Which of the two optional cases applies is read off the SHAPE of the default value (`Val.scalar`); for
+a well-typed default (`WT` demands it) that is the class of the field's resolved type. A struct value
+that does not list a NON-optional field stands for the Go field as the constructor left it: the default
+(written as such), else the Go zero value (`zeroEvents`). The emitted service args/result structs are
+made by zero literals, not constructors; their fields carry no defaults (C03's assumption).
+Doubles are compared by their IEEE bits here; Go compares floats (differs for -0.0 / NaN only).
 -/
 import FV.Basic
 
@@ -33,26 +52,6 @@ inductive Req where | required | optional | default
 inductive Kind where | struct | union | exception
   deriving Repr, DecidableEq
 
-structure Field where
-  id : Int
-  req : Req
-  name : String
-  ty : Ty
-  deriving Repr, DecidableEq
-
-structure StructDef where
-  kind : Kind
-  key : String           -- how types refer to it (file-qualified)
-  name : String          -- the IDL name, passed to WriteStructBegin
-  fields : List Field
-  deriving Repr, DecidableEq
-
-structure Defs where
-  typedefs : List (String × Ty)
-  enums : List (String × List Int)
-  structs : List StructDef
-  deriving Repr
-
 inductive Val where
   | bool (b : Bool)
   | int (n : Int)                    -- byte, i16, i32, i64, enum
@@ -62,6 +61,54 @@ inductive Val where
   | map (kvs : List (Val × Val))
   | struct (fs : List (Int × Val))   -- the fields that are set
   deriving Repr, Inhabited
+
+mutual
+/-- Boolean equality of values (the nested inductive has no derived `DecidableEq`); `Val.beq_iff` in
+`FV.Proofs.Thrift`: `Val.beq v w = true ↔ v = w`. -/
+def Val.beq : Val → Val → Bool
+  | .bool a, w => match w with | .bool b => a == b | _ => false
+  | .int a, w => match w with | .int b => a == b | _ => false
+  | .dbl a, w => match w with | .dbl b => a == b | _ => false
+  | .bytes a, w => match w with | .bytes b => a == b | _ => false
+  | .list a, w => match w with | .list b => Val.beqList a b | _ => false
+  | .map a, w => match w with | .map b => Val.beqPairs a b | _ => false
+  | .struct a, w => match w with | .struct b => Val.beqFields a b | _ => false
+def Val.beqList : List Val → List Val → Bool
+  | [], l => match l with | [] => true | _ => false
+  | x :: xs, l => match l with | y :: ys => Val.beq x y && Val.beqList xs ys | _ => false
+def Val.beqPairs : List (Val × Val) → List (Val × Val) → Bool
+  | [], l => match l with | [] => true | _ => false
+  | (k1, v1) :: xs, l => match l with | (k2, v2) :: ys => Val.beq k1 k2 && (Val.beq v1 v2 && Val.beqPairs xs ys) | _ => false
+def Val.beqFields : List (Int × Val) → List (Int × Val) → Bool
+  | [], l => match l with | [] => true | _ => false
+  | (i1, v1) :: xs, l => match l with | (i2, v2) :: ys => (i1 == i2) && (Val.beq v1 v2 && Val.beqFields xs ys) | _ => false
+end
+
+/-- Base-typed / enum / string / binary values (what a non-pointer Go field can be compared with). -/
+def Val.scalar : Val → Bool
+  | .bool _ | .int _ | .dbl _ | .bytes _ => true
+  | _ => false
+
+structure Field where
+  id : Int
+  req : Req
+  name : String
+  ty : Ty
+  dflt : Option Val := none      -- IDL default value (`= 5`)
+  deriving Repr
+
+structure StructDef where
+  kind : Kind
+  key : String           -- how types refer to it (file-qualified)
+  name : String          -- the IDL name, passed to WriteStructBegin
+  fields : List Field
+  deriving Repr
+
+structure Defs where
+  typedefs : List (String × Ty)
+  enums : List (String × List Int)
+  structs : List StructDef
+  deriving Repr
 
 /-- One TProtocol call. -/
 inductive Event where
@@ -120,21 +167,52 @@ def concatRes : List (Res (List Event)) → Res (List Event)
     | .err e => .err e
     | .panic p => .panic p
 
+/-- The default that the emitted `IsSet<F>()` of field `f` compares the field with: `f` is optional (or
+a union field) and has a default of base / enum / string / binary type — a NON-pointer Go field. -/
+def cmpDflt (sd : StructDef) (f : Field) : Option Val :=
+  if f.req = .optional ∨ sd.kind = .union then
+    match f.dflt with
+    | some dv => if dv.scalar then some dv else none
+    | none => none
+  else none
+
+/-- The emitted `IsSet<F>()` of a field holding `v` (`p.F != T_F_DEFAULT`; pointer fields and fields
+without default: listed = set). -/
+def isSetVal (sd : StructDef) (f : Field) (v : Val) : Bool :=
+  match cmpDflt sd f with
+  | some dv => !(Val.beq v dv)
+  | none => true
+
+/-- `IsSet<F>()` on a struct value with listed fields `fs` (what `CountSetFields…()` of a union counts). -/
+def isSetIn (sd : StructDef) (fs : List (Int × Val)) (f : Field) : Bool :=
+  match lookupVal fs f.id with
+  | some v => isSetVal sd f v
+  | none => false
+
 /-- One emitted `writeFieldN`: what is written for field `f` of a struct value with set fields `fs`
 (`enc` = the writer for nested values). -/
 def fieldEvents (d : Defs) (enc : Ty → Val → Res (List Event)) (sd : StructDef) (fs : List (Int × Val))
     (f : Field) : Res (List Event) :=
   match lookupVal fs f.id with
   | some fv =>
-    match enc f.ty fv with
-    | .ok es => .ok ([.fb f.name (wireOf d f.ty) f.id] ++ es ++ [.fe])
-    | .err e => .err e
-    | .panic p => .panic p
+    if isSetVal sd f fv = true then
+      match enc f.ty fv with
+      | .ok es => .ok ([.fb f.name (wireOf d f.ty) f.id] ++ es ++ [.fe])
+      | .err e => .err e
+      | .panic p => .panic p
+    else .ok []                        -- `if p.IsSetF() {…}`: the field holds its default
   | none =>
     if f.req = .optional ∨ sd.kind = .union then .ok []
-    else match zeroEvents d f.ty with
-      | some es => .ok ([.fb f.name (wireOf d f.ty) f.id] ++ es ++ [.fe])
-      | none => .panic .index        -- nil struct pointer dereferenced in the emitted Write
+    else match f.dflt with
+      | some dv =>                     -- the constructor's default, written unconditionally
+        match enc f.ty dv with
+        | .ok es => .ok ([.fb f.name (wireOf d f.ty) f.id] ++ es ++ [.fe])
+        | .err e => .err e
+        | .panic p => .panic p
+      | none =>
+        match zeroEvents d f.ty with
+        | some es => .ok ([.fb f.name (wireOf d f.ty) f.id] ++ es ++ [.fe])
+        | none => .panic .index        -- nil struct pointer dereferenced in the emitted Write
 
 /-- Emitted Write code. `encV d n t v`: the calls made for value `v` of declared type `t`. -/
 def encV (d : Defs) : Nat → Ty → Val → Res (List Event)
@@ -169,7 +247,7 @@ def encV (d : Defs) : Nat → Ty → Val → Res (List Event)
       match lookupStruct d nm with
       | none => .panic .typeAssert
       | some sd =>
-        if sd.kind = .union ∧ (sd.fields.filter fun f => (lookupVal fs f.id).isSome).length ≠ 1 then .err .invalidData else
+        if sd.kind = .union ∧ (sd.fields.filter (isSetIn sd fs)).length ≠ 1 then .err .invalidData else
         match concatRes (sd.fields.map (fieldEvents d (encV d n) sd fs)) with
         | .ok es => .ok ([.sb sd.name] ++ es ++ [.fs, .se])
         | .err e => .err e
@@ -243,10 +321,26 @@ def setField (fs : List (Int × Val)) (id : Int) (v : Val) : List (Int × Val) :
   | [] => [(id, v)]
   | (i, w) :: t => if i = id then (id, v) :: t else (i, w) :: setField t id v
 
-/-- The state of an emitted Go struct after reading: its fields are positional, so the fields that
-are set are listed in declaration order, whatever order they arrived in. -/
+/-- The state of field `f` of an emitted Go struct after `Read` saw the fields `acc` (`none` = unset). -/
+def readState (sd : StructDef) (acc : List (Int × Val)) (f : Field) : Option Val :=
+  match lookupVal acc f.id with
+  | some v => if isSetVal sd f v = true then some v else none
+  | none => if f.req = .optional ∨ sd.kind = .union then none else f.dflt
+
+/-- The state of an emitted Go struct after reading `acc` (what arrived, by id) into `New<T>()`: its
+fields are positional, so the fields that are set are listed in declaration order, whatever order
+they arrived in; a non-pointer optional field that arrived with its default value is NOT set
+(`IsSet<F>()` compares with the default); a required / default-requiredness field that did not
+arrive holds the constructor's default. -/
 def normFields (sd : StructDef) (acc : List (Int × Val)) : List (Int × Val) :=
-  sd.fields.filterMap fun f => (lookupVal acc f.id).map fun v => (f.id, v)
+  sd.fields.filterMap fun f => (readState sd acc f).map fun v => (f.id, v)
+
+/-- The emitted getter `Get<F>()` on a struct value: the field's value when set, else the declared
+default (for a non-pointer field that IS the field's content). -/
+def getField (fs : List (Int × Val)) (f : Field) : Option Val :=
+  match lookupVal fs f.id with
+  | some v => some v
+  | none => f.dflt
 
 /-- Read `k` consecutive values with reader `dec` (the emitted `for i := 0; i < size; i++` loop). -/
 def decN (dec : List Event → Res (Val × List Event)) : Nat → List Event → List Val → Res (List Val × List Event)
@@ -324,9 +418,10 @@ def decV (d : Defs) : Nat → Ty → List Event → Res (Val × List Event)
       | some sd =>
         match decFields (decV d n) (skip (n + 1)) sd r.length r [] with
         | .ok (fs, .se :: r') =>
-          -- required fields must have been seen; a union must have exactly one field
+          -- required fields must have been seen (`issetF` flags); a union must have exactly one field
+          -- set (`CountSetFields…()`: `IsSet<F>()` on the final state = arrived and differs from the default)
           if sd.fields.any (fun f => f.req = .required ∧ sd.kind ≠ .union ∧ (lookupVal fs f.id).isNone) then .err .invalidData
-          else if sd.kind = .union ∧ (sd.fields.filter fun f => (lookupVal fs f.id).isSome).length ≠ 1 then .err .invalidData
+          else if sd.kind = .union ∧ (sd.fields.filter (isSetIn sd fs)).length ≠ 1 then .err .invalidData
           else .ok (.struct (normFields sd fs), r')
         | .ok _ => .err .invalidData
         | .err e => .err e
